@@ -76,3 +76,16 @@ Definition linearization (hist : list hop) (m0 : map_) (l : list hop) : Prop :=
   Permutation l hist /\
   (forall a b, In a l -> In b l -> (h_resp a < h_inv b)%Z -> before l a b) /\
   seq_legal l m0.
+
+(* ---- vocabulary of the corollaries stated on histories ---- *)
+(* the shared map as it is after the first j steps of the schedule *)
+Definition map_at (n : nat) (m0 : map_) (sched : list (nat * call)) (j : nat) : map_ :=
+  cmp (crun (cinit n m0) (firstn j sched)).
+
+Definition is_setnx (k : Z) (c : call) : bool := match c with CSetNx k' _ => (k' =? k)%Z | _ => false end.
+(* a completed SetNx on k that reported true *)
+Definition setnx_win (k : Z) (h : hop) : bool := is_setnx k (h_call h) && list_eqb (h_res h) [1%Z].
+(* a call that never changes whether k is present (reads, writes to other keys, Set/SetX on a present key ...) *)
+Definition keeps_key (k : Z) (c : call) : Prop := forall m, has (fst (sem c m)) k = has m k.
+(* a call that never makes an absent k present *)
+Definition never_creates (k : Z) (c : call) : Prop := forall m, has m k = false -> has (fst (sem c m)) k = false.
